@@ -58,6 +58,14 @@ def inject(text, line_no, kind):
     if kind == "type":       # a new statement before line L, indented like it
         lines.insert(line_no - 1, ind + "def zq: Int := \"s\"")
         return "\n".join(lines), line_no
+    if kind == "swap":       # IN PLACE: the first integer literal of the line becomes a string literal (the line stays one statement / arm / branch)
+        if '"' in l or "#" in l:
+            return None, 0
+        m = re.search(r"(?<![\w.])\d+(?![\w.])", l)
+        if not m:
+            return None, 0
+        lines[line_no - 1] = l[:m.start()] + '"zq"' + l[m.end():]
+        return "\n".join(lines), line_no
     if kind == "undefined":
         lines.insert(line_no - 1, ind + "print(zq_undefined)")
         return "\n".join(lines), line_no
@@ -89,6 +97,13 @@ def gather(chk, tier, vh):
             for kind in ("lex", "syntax", "type", "undefined"):
                 t, fl = inject(p["src"], L, kind)
                 inputs.append({"src": t, "fault_line": fl, "origin": "inject-%s:%s" % (kind, p["kind"])})
+    # in-place faults on EVERY line that holds an integer literal (also arm bodies, branches and headers) of EVERY accepted program; a
+    # program that is still valid after the swap is simply accepted and not judged
+    for p in accepted:
+        for L in range(1, p["src"].count("\n") + 1):
+            t, fl = inject(p["src"], L, "swap")
+            if t:
+                inputs.append({"src": t, "fault_line": fl, "origin": "inject-swap:%s" % p["kind"]})
     for p in rejected[:: (2 if tier == "quick" else 1)]:
         inputs.append({"src": p["src"], "fault_line": 0, "origin": "grid:%s/%s" % (p["family"], p["kind"])})
     for fam, k in (("soup", 3), ("shapes", 0), ("graphs", 0)):
@@ -154,6 +169,9 @@ def explain(o, inp, verdict, errs):
             return "KF-C19-1"
         if outside and all(d["line"] == 0 and d["col"] == 0 for d in outside) and re.search(r'"[^"]*\{[^}]*\}', inp["src"]):
             return "KF-C19-2"
+    if (verdict == "violation:no-position-on-the-fault-line" and inp["origin"].startswith("inject-swap:") and errs
+            and re.search(r"Type 'Union\[[^']*\]' is undefined", errs[0]) and re.search(r"\[[^\]]*\"zq\"", inp["src"].split("\n")[inp["fault_line"] - 1])):
+        return "KF-C19-3"
     return None
 
 
